@@ -2,7 +2,7 @@
 # Confirms seeded changes: demo passes on pristine HEAD, fails with the patch; existing tests pass with the patch.
 # usage: confirm_seeds.sh <seed-root> <out.tsv> id/mN:<demo-dest>:<pkg>:<existing test spec> ...
 ROOT=$1; OUT=$2; shift 2
-WT=/tmp/wt/confirm
+WT=${WT:-/tmp/wt/confirm}
 cd /repo && (git worktree list | grep -q $WT || git worktree add --detach $WT HEAD -q)
 cd $WT && git checkout -q --detach main 2>/dev/null
 for spec in "$@"; do
